@@ -137,12 +137,13 @@ type RunOpts struct {
 }
 
 type shardRun struct {
+	capped []string
 	res   *WorkerResult
 	extra []*Violation // hang / heap / fatal
 	err   error
 }
 
-func runWorker(o *RunOpts, prop string, shard, n int, skip []int64, trace string) (res *WorkerResult, code int, stderr string, err error) {
+func runWorker(o *RunOpts, prop string, shard, n int, skip []int64, skipEntries []string, trace string) (res *WorkerResult, code int, stderr string, err error) {
 	args := []string{"worker", prop, "--tier", o.Tier, "--seed", strconv.FormatInt(o.Seed, 10), "--shard", fmt.Sprintf("%d/%d", shard, n)}
 	if len(skip) > 0 {
 		ss := make([]string, len(skip))
@@ -153,6 +154,9 @@ func runWorker(o *RunOpts, prop string, shard, n int, skip []int64, trace string
 	}
 	if trace != "" {
 		args = append(args, "--trace", trace)
+	}
+	if len(skipEntries) > 0 {
+		args = append(args, "--skip-entries", strings.Join(skipEntries, "\x1f"))
 	}
 	cmd := exec.Command(o.Exe, args...)
 	var so, se bytes.Buffer
@@ -195,8 +199,10 @@ func watchdogReport(stderr string) *WatchdogReport {
 func runShard(o *RunOpts, prop string, shard, n int) *shardRun {
 	sr := &shardRun{}
 	var skip []int64
+	var skipEntries []string
+	kills := map[string]int{}
 	for attempt := 0; attempt < 40; attempt++ {
-		res, code, stderr, err := runWorker(o, prop, shard, n, skip, "")
+		res, code, stderr, err := runWorker(o, prop, shard, n, skip, skipEntries, "")
 		if err != nil {
 			sr.err = err
 			return sr
@@ -216,7 +222,7 @@ func runShard(o *RunOpts, prop string, shard, n int) *shardRun {
 		if rep == nil {
 			// unrecoverable crash (fatal error, stack overflow …): find the culprit with a traced re-run
 			tf := filepath.Join(os.TempDir(), fmt.Sprintf("vcheck-trace-%d-%s-%d", os.Getpid(), prop, shard))
-			_, code2, stderr2, err2 := runWorker(o, prop, shard, n, skip, tf)
+			_, code2, stderr2, err2 := runWorker(o, prop, shard, n, skip, skipEntries, tf)
 			b, _ := os.ReadFile(tf)
 			os.Remove(tf)
 			if err2 != nil || code2 == 0 || len(b) == 0 {
@@ -246,6 +252,12 @@ func runShard(o *RunOpts, prop string, shard, n int) *shardRun {
 			Order: fmt.Sprintf("%04d:%012d", shard, rep.Idx),
 		})
 		skip = append(skip, rep.Idx)
+		// an entry point that keeps killing the worker is skipped wholesale after three culprits (recorded as a cap)
+		kills[rep.Entry]++
+		if kills[rep.Entry] == 3 && rep.Entry != "" {
+			skipEntries = append(skipEntries, rep.Entry)
+			sr.capped = append(sr.capped, fmt.Sprintf("entry %q skipped in shard %d after three hanging/crashing cases", rep.Entry, shard))
+		}
 	}
 	sr.err = fmt.Errorf("worker %d of %s: more than 40 hanging/crashing cases; giving up", shard, prop)
 	return sr
@@ -294,7 +306,7 @@ func RunCheck(o *RunOpts, prop string) int {
 			return 2
 		}
 		m.Absorb(r.res)
-		m.Absorb(&WorkerResult{Viols: r.extra})
+		m.Absorb(&WorkerResult{Viols: r.extra, Capped: r.capped})
 	}
 
 	known, err := LoadKnown(filepath.Join(o.VerifDir, "known_findings.jsonl"))
@@ -510,7 +522,7 @@ func ReplayMain(path string, times int, expect string) int {
 }
 
 // WorkerMain implements `vcheck worker <prop> …`.
-func WorkerMain(prop, tier string, seed int64, shard, n int, skip []int64, trace string) int {
+func WorkerMain(prop, tier string, seed int64, shard, n int, skip []int64, skipEntries []string, trace string) int {
 	spec := Props[prop]
 	if spec == nil {
 		fmt.Fprintf(os.Stderr, "unknown property %s\n", prop)
@@ -519,6 +531,9 @@ func WorkerMain(prop, tier string, seed int64, shard, n int, skip []int64, trace
 	c := NewCtx(prop, tier, seed, shard, n)
 	for _, s := range skip {
 		c.Skip[s] = true
+	}
+	for _, e := range skipEntries {
+		c.SkipEntry[e] = true
 	}
 	if trace != "" {
 		f, err := os.Create(trace)
